@@ -62,8 +62,22 @@ func (p *Project) WorkflowsDir() string {
 // Knows returns true when the project knows the given file. When a file is included in the
 // project's directory, the project knows the file.
 func (p *Project) Knows(path string) bool {
-	// TODO: strings.HasPrefix is not perfect to check file path
-	return strings.HasPrefix(absPath(path), p.root)
+	return isInDir(absPath(path), p.root)
+}
+
+// isInDir returns true when the path is the directory itself or a path under the directory. Both
+// paths must be absolute. Simple prefix match is not sufficient since "/path/to/repo2/foo.yaml"
+// starts with "/path/to/repo".
+func isInDir(path, dir string) bool {
+	if !strings.HasPrefix(path, dir) {
+		return false
+	}
+	rest := path[len(dir):]
+	if rest == "" || os.IsPathSeparator(rest[0]) {
+		return true
+	}
+	// When dir ends with a separator like "/"
+	return dir != "" && os.IsPathSeparator(dir[len(dir)-1])
 }
 
 // Config returns config object of the GitHub project repository. The config file was read from
